@@ -13,6 +13,7 @@ From Oras Require Import Base.Prelude Generated.GC10 Model.OciCrash Model.OciCra
 From Oras Require Model.OciGC Proofs.OciGC.
 From Oras Require Import Proofs.OciCrashGC.
 From Oras Require Import Model.OciCrashConc Proofs.OciCrashConc.
+From Oras Require Import Proofs.OciCrashOff.
 
 (* For every digest/size verification function H, every iteration order of saveIndex,
    every history h of completed Push/Tag/Untag/Delete/SaveIndex operations on a freshly
@@ -489,6 +490,23 @@ Example C10_gc_example_instance :
   read_index fsk = Some [(2, Some 5)] /\
   exists_file fsk (FBlob 1) = false /\ exists_file fsk (FBlob 3) = true /\ exists_file fsk (FBlob 2) = true.
 Proof. vm_compute. repeat split; reflexivity. Qed.
+
+(* ... and what DOES hold with AutoSaveIndex = false (everything but "every index entry names an
+   existing blob"): at every cut of every operation after every history the layout is valid,
+   every blob file is complete and matches its name, index.json parses and is the one before
+   or the one after, and the blobs lie between before and after.  (No hypothesis on the map
+   order is needed.) *)
+Theorem C10_autosave_off_partial :
+  forall (H : list N -> N) (shuffle : nat -> list entry -> list entry) (h : list op) (o : op) (k : nat),
+    let s := run H shuffle src_inplace src_unlink_first false h init in
+    let fsk := crash_fs H shuffle src_inplace src_unlink_first false s o k in
+    let fs1 := sfs (run_op H shuffle src_inplace src_unlink_first false s o) in
+    layout_ok fsk /\ blob_ok H fsk /\ (exists l, read_index fsk = Some l) /\
+    (read_index fsk = read_index (sfs s) \/ read_index fsk = read_index fs1) /\
+    (forall d, has (sfs s) (FBlob d) -> has fs1 (FBlob d) -> has fsk (FBlob d)) /\
+    (forall d, has fsk (FBlob d) -> has (sfs s) (FBlob d) \/ has fs1 (FBlob d)).
+Proof. exact autosave_off_partial_src. Qed.
+Print Assumptions C10_autosave_off_partial.
 
 (* The hypotheses are satisfiable and the statement is not vacuous: a concrete history
    (push a layer, push a manifest, tag it, delete it cut after the index rename). *)
